@@ -45,7 +45,7 @@ fn write_tree(root: &Path, files: &[(String, String)]) {
 /// a directory tree of notes: nested directories, non-note files, names with spaces
 pub fn gen_tree(r: &mut Rng, with_md_md: bool) -> Vec<(String, String)> {
     // names with a dot before `.md` (`release-1.2.md`) and directories with dots: the key keeps them
-    let names = ["a", "b", "my note", "d/x", "d/e/z", "d/two words", "f/x", "ü", "release-1.2", "v1.0/notes.2024"];
+    let names = ["a", "b", "my note", "d/x", "d/e/z", "d/two words", "f/x", "ü", "release-1.2", "v1.0/notes.2024", "archive.md/old"];
     let keys: Vec<String> = names.iter().map(|s| s.to_string()).collect();
     let n = r.range(1, 6);
     let mut files: Vec<(String, String)> = vec![];
@@ -57,6 +57,10 @@ pub fn gen_tree(r: &mut Rng, with_md_md: bool) -> Vec<(String, String)> {
         let mut p = hist::profile_for(&keys, k, true);
         p.max_blocks = 5;
         files.push((format!("{}.md", k), gen::document(r, &p)));
+    }
+    // every other tree: a note inside a directory whose own name ends in `.md`
+    if r.chance(1, 2) && !files.iter().any(|(p, _)| p.starts_with("archive.md/")) {
+        files.push(("archive.md/old.md".to_string(), "# Old   note\n\n*  kept  here *\n".to_string()));
     }
     files.push(("notes.txt".to_string(), "not a note\n".to_string()));
     files.push(("d/readme.markdown".to_string(), "* keep   me  *\n".to_string()));
@@ -78,8 +82,10 @@ pub fn gen_tree(r: &mut Rng, with_md_md: bool) -> Vec<(String, String)> {
     files
 }
 
-fn expected(root: &Path) -> Option<BTreeMap<String, String>> {
-    let state = liwe::fs::new_for_path(&root.to_path_buf());
+/// what `iwe normalize` has to leave on disk: the export of the library made of the tree's `*.md` files — taken from
+/// the generated tree itself, not through the implementation's directory loader
+fn expected(files: &[(String, String)]) -> Option<BTreeMap<String, String>> {
+    let state: std::collections::HashMap<String, String> = files.iter().filter_map(|(p, t)| p.strip_suffix(".md").map(|k| (k.to_string(), t.clone()))).collect();
     let g = dump::catch(|| Graph::import(&state, MarkdownOptions::default())).ok()?;
     let e = dump::catch(|| g.export()).ok()?;
     Some(e.into_iter().map(|(k, v)| (format!("{}.md", k), v)).collect())
@@ -343,7 +349,7 @@ pub fn check_tree(model: &mut Model, files: &[(String, String)], tag: &str, max_
     let mut res = CaseResult { fault_traces: 0, fail: None, disagree: None, injections: 0 };
     fresh();
     let before = snapshot(&root);
-    let Some(want) = expected(&root) else {
+    let Some(want) = expected(files) else {
         let _ = std::fs::remove_dir_all(&base);
         return res;
     };
